@@ -56,6 +56,7 @@ const (
 	CErrClass              = "error-class"                     // C13
 	CCallback              = "callback"                        // C20
 	CSpuriousCycle         = "spurious-cycle"                  // C05/C13
+	CMissedCycleInvoke     = "missed-cycle-at-invoke"          // C05/C13: resolution traverses a constructor cycle, Invoke must report it
 )
 
 type InvokeInfo struct {
@@ -456,6 +457,32 @@ func (v *VResult) validateInvoke(c *Case, tr *Trace, rt *RT, i int, op Op, out O
 			}
 		}
 	}
+	cbPanicked := false
+	for _, ev := range tr.Events(i) {
+		if ev.Kind == EvCB && ev.CBPanics {
+			cbPanicked = true
+		}
+	}
+	if cbPanicked {
+		// a callback panicked: what this Invoke returns is not covered by
+		// any property (only the state it leaves behind is, and that has
+		// been adopted above); no verdict, no root-cause claim
+		v.Labels["callback-panicked"] = true
+		ii.FaultFree = false
+		if out.Panicked {
+			if pv, ok := out.PanicVal.(*CBPanicVal); !ok || pv == nil {
+				if _, isUser := out.PanicVal.(*PanicVal); !isUser {
+					if _, isUserErr := out.PanicVal.(*PanicErr); !isUserErr {
+						if _, isStr := out.PanicVal.(string); !isStr {
+							v.add(CEscapedPanic, i, "a callback panicked and Invoke panicked with a foreign value: %v", out.PanicVal)
+						}
+					}
+				}
+			}
+		}
+		v.checkCallbacks(c, tr, rt, i, fn)
+		return
+	}
 	v.checkFailures(c, tr, rt, i, out, fn, ii)
 	v.checkCallbacks(c, tr, rt, i, fn)
 	if ii.Failures > 0 && len(ii.RanOK) > 0 {
@@ -486,6 +513,37 @@ func (v *VResult) validateInvoke(c *Case, tr *Trace, rt *RT, i int, op Op, out O
 			if g := m.Fns[id]; g != nil && g.OkExec < 0 {
 				v.add(CMustRunMissing, i, "Invoke succeeded but %v in its closure has not run", g)
 			}
+		}
+	}
+	if ii.Zones.CtorCycle && !ii.Zones.DecoCycle && !ii.Zones.DecoNoProvider && ii.FaultFree && !c.Cfg.Dry {
+		// run-time resolution re-enters a constructor under construction:
+		// the Invoke must fail with IsCycleDetected (or with a missing-
+		// dependency error when a hole in the closure may be met first)
+		v.Labels["invoke-traverses-ctor-cycle"] = true
+		hole := false
+		for id := range ii.MayRun {
+			if g := m.Fns[id]; g != nil && !okAtStart[id] {
+				for _, lf := range g.Leaves {
+					if !lf.Opt && !lf.IsGroup && m.ExpectSingle(g, lf.Key) == nil {
+						hole = true
+					}
+				}
+			}
+		}
+		for _, lf := range fn.Leaves {
+			if !lf.Opt && !lf.IsGroup && m.ExpectSingle(fn, lf.Key) == nil {
+				hole = true
+			}
+		}
+		switch {
+		case out.Class == ClCrash || out.Class == ClRisky:
+			if out.Class == ClCrash {
+				v.add(CMissedCycleInvoke, i, "resolution re-enters a constructor under construction and the process died (stack overflow) instead of returning a cycle error")
+			}
+		case out.Class == ClCycle:
+		case hole && out.Class == ClDig:
+		default:
+			v.add(CMissedCycleInvoke, i, "resolution traverses a constructor cycle but Invoke returned class %s (%v), want an error for which IsCycleDetected is true", out.Class, out.Err)
 		}
 	}
 	if out.Class == ClCycle && !ii.Zones.CtorCycle && !ii.Zones.GraphCyclic && !ii.Zones.DecoCycle {
@@ -689,7 +747,16 @@ func (v *VResult) checkCallbacks(c *Case, tr *Trace, rt *RT, i int, fn *MFn) {
 				}
 			}
 			if g.F.Bank > 0 {
-				if want := BankName(g.F.Bank - 1); cb.CBName != want {
+				want := BankName(g.F.Bank - 1)
+				if g.O != nil {
+					// LocationForPC overrides what identifies the function
+					var k int
+					if n, _ := fmt.Sscanf(g.O.LocPC, "bank%d", &k); n == 1 {
+						want = BankName(k)
+						v.Labels["callback-name-from-LocationForPC"] = true
+					}
+				}
+				if cb.CBName != want {
 					v.add(CCallback, i, "%v: callback Name=%q, want %q", g, cb.CBName, want)
 				}
 			}
